@@ -204,6 +204,29 @@ def sessionBatchBody (server : Bytes → Bytes × Nat) (ty : BatchType) (stmts :
   let prof := chosenProfile stmtProfile sessionDefault
   batchRequestBody server ty stmts rows (sessionConsistency cfg prof) (sessionSerial cfg prof) cfg conn
 
+/-- How `Session::batch` can refuse a batch before / instead of sending it. -/
+inductive SessionBatchErr where
+  /-- `ExecutionError::BadQuery(BadQuery::TooManyQueriesInBatchStatement(n))` — the session's own guard -/
+  | tooManyQueries (n : Nat)
+  /-- any refusal of the layers behind the guard (the frame serializer's `BatchSerializationError`s) -/
+  | frame (e : Err)
+  deriving Repr, DecidableEq
+
+/-- `Session::batch` as a whole (`session.rs:1031-1107`): FIRST the session's own guard on the number of statements
+(`session.rs:1039-1045`: `if batch.statements.len() > u16::MAX as usize { return Err(TooManyQueriesInBatchStatement(len)) }`,
+a second implementation of "oversize batches are refused" in front of `Batch::do_serialize`'s own `try_into::<u16>`),
+then the profile defaulting and `Connection::batch_with_consistency` (`sessionBatchBody`).  `peek_first_token`
+(`statement/batch.rs:308-342`) between the two only pre-serializes the first row with the first statement's own context —
+the same row/context pair the serializer would judge — and is folded into `.frame`. -/
+def sessionBatch (server : Bytes → Bytes × Nat) (ty : BatchType) (stmts : List GlueStmt) (rows : List (List RawVal))
+    (cfg : StmtConfig) (stmtProfile : Option ExecProfile) (sessionDefault : ExecProfile) (conn : ConnCtx) :
+    Except SessionBatchErr Bytes :=
+  if stmts.length > 65535 then .error (.tooManyQueries stmts.length)
+  else
+    match sessionBatchBody server ty stmts rows cfg stmtProfile sessionDefault conn with
+    | .ok body => .ok body
+    | .error e => .error (.frame e)
+
 /-- The requests of a paged session-level iteration (`query_iter` / `execute_iter`): first page without a paging
 state, then the server's previous state each time. -/
 def sessionIterExecutes (p : PreparedInfo) (values : List RawVal) (cfg : StmtConfig) (stmtProfile : Option ExecProfile)
